@@ -108,7 +108,11 @@ func randomReady(r *lib.Rand) RScenario {
 	ncons := 0
 	var parked, ctxs []int
 	for i := 0; i < n; i++ {
-		switch r.Intn(10) {
+		k := r.Intn(10)
+		if ncons >= 4 && k >= 1 && k <= 5 {
+			k = 9 // at most four consumer calls per scenario (the model's state set is 5^width)
+		}
+		switch k {
 		case 0:
 			if !run {
 				sc.Ops = append(sc.Ops, ROp{Op: "run"})
@@ -430,7 +434,11 @@ func randomTA(r *lib.Rand) TScenario {
 	var ctxs []int
 	ver := 0
 	for i := 0; i < n; i++ {
-		switch r.Intn(9) {
+		k := r.Intn(9)
+		if ncons >= 4 && k >= 1 && k <= 5 {
+			k = 6
+		}
+		switch k {
 		case 0:
 			if !run && !stopped {
 				sc.Ops = append(sc.Ops, TOp{Op: "run"})
